@@ -230,6 +230,28 @@ def gen_cases(rng, tier):
         descs = [d for d in descs if not (d[0].lower() in seen or seen.add(d[0].lower()))]
         ops = [["w", _gen_rec(r, r.choice(descs))] for _ in range(r.randint(1, 5))] + [["c"]]
         cases.append({"kind": "hist", "batches": [1, 3, 1000], "ops": ops})
+    # two types of one name whose identifiers (name + 32-bit hash over the concatenated field names and types) coincide:
+    # still two types - the table gains the second one's columns
+    r = rng.fork("identcollide")
+    c1 = ["col/t", [["string", "astringb"]]]
+    c2 = ["col/t", [["string", "a"], ["string", "b"]]]
+    for first, second in ((c1, c2), (c2, c1)):
+        ops = [["w", _gen_rec(r, first)], ["w", _gen_rec(r, second)], ["w", _gen_rec(r, first)], ["w", _gen_rec(r, second)], ["c"]]
+        cases.append({"kind": "hist", "batches": [1, 2, 3, 1000], "ops": ops})
+    # a with-block left by an exception ('X'): everything written is committed, at every batch size
+    r = rng.fork("withexc")
+    for _ in range(max(6, n // 20)):
+        ops = [o for o in _gen_hist(r, tier) if o[0] != "c"]
+        if not any(o[0] == "w" for o in ops):
+            ops.append(["w", _gen_rec(r, ["test/ok", [["string", "s"]]])])
+        cases.append({"kind": "hist", "batches": [1, 2, 5, 1000], "ops": ops + [["X"]]})
+    # type names that merely begin with "sqlite" (not the reserved prefix "sqlite_")
+    r = rng.fork("sqlitenames")
+    for nm in ("sqlite/history", "sqlitedata", "SQLite/x"):
+        ds = [nm, [["string", "s"], ["varint", "n"]]]
+        ok = ["test/ok", [["string", "s"]]]
+        cases.append({"kind": "hist", "batches": [1, 3, 1000],
+                      "ops": [["w", _gen_rec(r, ok)], ["w", _gen_rec(r, ds)], ["w", _gen_rec(r, ds)], ["w", _gen_rec(r, ok)], ["c"]]})
     # case collisions (known findings; a couple per run keep the matchers exercised)
     r = rng.fork("collide")
     for _ in range(2 if tier != "search" else 0):
@@ -398,6 +420,9 @@ def _run_hist(case, batch, d):
                     # a new writer session on the same database file (the previous one is closed first)
                     w.close()
                     w = SqliteWriter(path, batch_size=batch)
+                elif op[0] == "X":
+                    # the with-block around the writer is left by an exception raised in its body
+                    w.__exit__(ValueError, ValueError("boom"), None)
                 else:
                     w.close()
                 st["outcome"] = "ok"
@@ -769,7 +794,7 @@ def oracle(case, obs):
         elif f:
             return f
     # batch-size independence of the stored content (histories that end closed)
-    closed = any(o[0] == "c" for o in case["ops"])
+    closed = any(o[0] in ("c", "X") for o in case["ops"])
     if closed:
         ref = _final_content(obs["runs"][0])
         for run in obs["runs"][1:]:
@@ -798,7 +823,7 @@ def model_op(case, obs):
                 return None
             hist.append({"k": "w", "name": st["desc"][0], "fields": st["desc"][1], "vals": st["vals"]})
         else:
-            hist.append({"k": op[0]})
+            hist.append({"k": "c" if op[0] == "X" else op[0]})     # leaving a with-block by an exception closes too
     return {"op": "sqlite", "batches": case["batches"], "hist": hist}
 
 
